@@ -16,7 +16,10 @@ def handle_cell(cell: Cell, titles: Dict[str, int]):
         cell.title = titles[cell.title]
 
     if isinstance(cell.column, str):
-        cell.column = column_index_from_string(cell.column) - 1
+        try:
+            cell.column = column_index_from_string(cell.column) - 1
+        except ValueError:
+            raise E2PyclCellException(f'There is no column `{cell.column}`')
 
     if isinstance(cell.row, str):
         if cell.row:
